@@ -44,6 +44,7 @@
 #undef docallback
 #undef callback_buf
 
+#include "aws_sign.h"
 #include "http.h"
 #include "humansize.h"
 #include "netbuf.h"
@@ -58,6 +59,17 @@ __wrap_poll(struct pollfd * p, nfds_t n, int timeout)
 {
 
 	return (__real_poll(p, n, (timeout < 0 || timeout > 1) ? 1 : timeout));
+}
+
+/* time(): fixed, so that a reference run of aws_sign_* and the run under faults produce the same strings */
+time_t __wrap_time(time_t *);
+time_t
+__wrap_time(time_t * t)
+{
+
+	if (t != NULL)
+		*t = (time_t)1700000000;
+	return ((time_t)1700000000);
 }
 
 /* exit handlers registered by library code (pools, events_*_shutdown): run by `end` */
@@ -184,6 +196,19 @@ server_step(void)
 	}
 }
 
+/* data still to be written into a descriptor by the peer side (more than the socket buffer takes at once) */
+static int feed_fd = -1;
+static uint8_t * feed_src;
+static size_t feed_off, feed_len;
+static void
+feed_step(void)
+{
+	ssize_t w;
+
+	while (feed_fd >= 0 && feed_off < feed_len && (w = write(feed_fd, feed_src + feed_off, feed_len - feed_off)) > 0)
+		feed_off += (size_t)w;
+}
+
 /* Run the event loop until `done`, at most `iters` passes; pfd >= 0: drain that peer descriptor. */
 static int stop_on_runfail;
 static void
@@ -193,6 +218,7 @@ spin(int pfd, int iters)
 
 	for (it = 0; it < iters && !done && !(stop_on_runfail && runfail); it++) {
 		server_step();
+		feed_step();
 		if (pfd >= 0)
 			peer_drain(pfd);
 		LIB(rc = events_run());
@@ -203,6 +229,22 @@ spin(int pfd, int iters)
 	}
 	if (pfd >= 0)
 		peer_drain(pfd);
+}
+
+/* after a failed netbuf_read_wait the reader must show exactly the bytes it showed before */
+static size_t nbr_visible;	/* bytes visible at the last peek */
+static void
+nbr_check_unchanged(struct netbuf_read * R, uint64_t seed, size_t consumed)
+{
+	uint8_t * d;
+	size_t dl, i;
+
+	LIB(netbuf_read_peek(R, &d, &dl));
+	if (dl < nbr_visible)
+		bad = "bytes-lost-by-failed-wait";
+	for (i = 0; i < dl && bad == NULL; i++)
+		if (d[i] != pat(seed, consumed + i))
+			bad = "bytes-changed-by-failed-wait";
 }
 
 static int hcb_n;
@@ -797,15 +839,15 @@ main(void)
 
 				for (i = 0; i < len; i++)
 					src[i] = pat(seed, i);
-				while (o < len && (w = write(sv[1], src + o, len - o)) > 0)
-					o += (size_t)w;
-				free(src);
+				(void)o; (void)w;
+				feed_fd = sv[1]; feed_src = src; feed_off = 0; feed_len = len;
+				feed_step();
 				LIB(c = network_read(sv[0], buf, len, min, cb_rw, NULL));
 			}
 			if (c == NULL)
 				failed = 1;
 			else {
-				spin(isw ? sv[1] : -1, 100);
+				spin(isw ? sv[1] : -1, 400);
 				if (!done) {
 					if (isw)
 						LIB(network_write_cancel(c));
@@ -833,6 +875,10 @@ main(void)
 				snprintf(extra, sizeof(extra), " n=%zd", cbval);
 			}
 			close(sv[0]); close(sv[1]);
+			if (feed_fd >= 0) {
+				free(feed_src);
+				feed_fd = -1;
+			}
 			free(buf);
 			finish_line(extra);
 		} else if (hc_is("nbw", 3)) {
@@ -930,6 +976,7 @@ main(void)
 				src[i] = pat(seed, i);
 			while (o < total && (w = write(sv[1], src + o, total - o)) > 0)
 				o += (size_t)w;
+			nbr_visible = 0;
 			LIB(R = netbuf_read_init(sv[0]));
 			if (R == NULL)
 				failed = 1;
@@ -941,6 +988,7 @@ main(void)
 					LIB(rc = netbuf_read_wait(R, chunk, cb_status, NULL));
 					if (rc) {
 						failed = 1;
+						nbr_check_unchanged(R, seed, consumed);
 						continue;	/* the same wait can be requested again */
 					}
 					spin(-1, 100);
@@ -965,6 +1013,7 @@ main(void)
 								bad = "reader-data";
 						LIB(netbuf_read_consume(R, chunk));
 						consumed += chunk;
+						nbr_visible = dl - chunk;
 					}
 				}
 				LIB(netbuf_read_free(R));
@@ -999,8 +1048,17 @@ main(void)
 			} else if (variant == 1) {
 				response = "HTTP/1.1 200 OK\r\nTransfer-Encoding: chunked\r\n\r\n5\r\nhello\r\n6\r\n world\r\n0\r\n\r\n";
 				expect_body = "hello world";
-			} else {
+			} else if (variant == 2) {
 				response = "HTTP/1.1 100 Continue\r\n\r\nHTTP/1.1 200 OK\r\nConnection: close\r\n\r\nhello world";
+				expect_body = "hello world";
+			} else if (variant == 3) {
+				/* an interim response WITH header lines: its header array is freed before the final response is parsed */
+				response = "HTTP/1.1 100 Continue\r\nX-A: y\r\nX-B: z\r\n\r\n"
+				    "HTTP/1.1 200 OK\r\nContent-Length: 11\r\nX-C: w\r\n\r\nhello world";
+				expect_body = "hello world";
+			} else {
+				response = "HTTP/1.1 100 Continue\r\nX-A: y\r\n\r\nHTTP/1.1 102 Processing\r\nX-B: z\r\nX-C: w\r\n\r\n"
+				    "HTTP/1.1 200 OK\r\nTransfer-Encoding: chunked\r\n\r\nb\r\nhello world\r\n0\r\n\r\n";
 				expect_body = "hello world";
 			}
 			sas = sock_resolve(path);
@@ -1041,6 +1099,128 @@ main(void)
 			unlink(path);
 			sock_addr_freelist(sas);
 			finish_line(extra);
+		} else if (strcmp(hc_tok[0], "nbrv") == 0 && hc_ntok >= 4 && hc_ntok <= 12) {
+			/*
+			 * nbrv <seed> <total> <c1> <c2> ...: buffered reader, waits of different sizes (so that the buffer is
+			 * grown while it holds consumed and unconsumed bytes); after a failed wait the visible bytes must be
+			 * unchanged, and the same wait is made again
+			 */
+			uint64_t seed = strtoull(hc_tok[1], NULL, 10);
+			size_t total = strtoull(hc_tok[2], NULL, 10), consumed = 0, k;
+			struct netbuf_read * R;
+			uint8_t * src = malloc(total ? total : 1);
+			int tries = 0;
+
+			socketpair(AF_UNIX, SOCK_STREAM, 0, sv);
+			nonblock(sv[0]); nonblock(sv[1]);
+			for (i = 0; i < total; i++)
+				src[i] = pat(seed, i);
+			feed_fd = sv[1]; feed_src = src; feed_off = 0; feed_len = total;
+			feed_step();
+			nbr_visible = 0;
+			LIB(R = netbuf_read_init(sv[0]));
+			if (R == NULL)
+				failed = 1;
+			else {
+				for (k = 3; k < (size_t)hc_ntok && bad == NULL; k++) {
+					size_t chunk = strtoull(hc_tok[k], NULL, 10);
+					int rc;
+
+					if (chunk == 0 || consumed + chunk > total)
+						break;
+					done = 0;
+					LIB(rc = netbuf_read_wait(R, chunk, cb_status, NULL));
+					if (rc) {
+						failed = 1;
+						nbr_check_unchanged(R, seed, consumed);
+						if (tries++ < 3)
+							k--;	/* the same wait again */
+						continue;
+					}
+					spin(-1, 400);
+					if (!done) {
+						LIB(netbuf_read_wait_cancel(R));
+						if (!runfail)
+							bad = "wait-never-completed";
+						break;
+					}
+					if (cbval != 0) {
+						failed = 1;
+						break;
+					} else {
+						uint8_t * d;
+						size_t dl;
+
+						LIB(netbuf_read_peek(R, &d, &dl));
+						if (dl < chunk)
+							bad = "short-peek";
+						for (i = 0; i < dl && bad == NULL; i++)
+							if (d[i] != pat(seed, consumed + i))
+								bad = "reader-data";
+						LIB(netbuf_read_consume(R, chunk));
+						consumed += chunk;
+						nbr_visible = dl - chunk;
+					}
+				}
+				LIB(netbuf_read_free(R));
+			}
+			snprintf(extra, sizeof(extra), " consumed=%zu", consumed);
+			close(sv[0]); close(sv[1]);
+			free(src);
+			feed_fd = -1;
+			finish_line(extra);
+		} else if (hc_is("aws", 2)) {
+			/*
+			 * aws <variant> <bodylen>: aws_sign_s3_headers / s3_querystr / svc_headers / dynamodb_headers.  A reference
+			 * run outside the fault schedule gives the expected strings; under faults the call must either fail
+			 * (some request refused) or succeed with NO request refused and exactly those strings.
+			 */
+			int variant = atoi(hc_tok[1]), rc = 0;
+			size_t bl = strtoull(hc_tok[2], NULL, 10), j;
+			uint8_t * body = malloc(bl ? bl : 1);
+			char * ref[3] = { NULL, NULL, NULL }, * got[3] = { NULL, NULL, NULL };
+			int pass;
+
+			for (j = 0; j < bl; j++)
+				body[j] = pat(7, j);
+			for (pass = 0; pass < 2; pass++) {
+				char ** o = pass ? got : ref;
+
+				if (pass)
+					hw_depth++;
+				if (variant == 0)
+					rc = aws_sign_s3_headers("AKIDEXAMPLE", "wJalrXUtnFEMI/K7MDENG+bPxRfiCYEXAMPLEKEY", "us-east-1",
+					    "PUT", "bucket", "/some/path", body, bl, &o[0], &o[1], &o[2]);
+				else if (variant == 1)
+					rc = ((o[0] = aws_sign_s3_querystr("AKIDEXAMPLE", "wJalrXUtnFEMI/K7MDENG+bPxRfiCYEXAMPLEKEY",
+					    "us-east-1", "GET", "bucket", "/some/path", 3600)) == NULL) ? -1 : 0;
+				else if (variant == 2)
+					rc = aws_sign_svc_headers("AKIDEXAMPLE", "wJalrXUtnFEMI/K7MDENG+bPxRfiCYEXAMPLEKEY", "us-east-1",
+					    "ec2", body, bl, &o[0], &o[1], &o[2]);
+				else
+					rc = aws_sign_dynamodb_headers("AKIDEXAMPLE", "wJalrXUtnFEMI/K7MDENG+bPxRfiCYEXAMPLEKEY",
+					    "us-east-1", "PutItem", body, bl, &o[0], &o[1], &o[2]);
+				if (pass)
+					hw_depth--;
+				else if (rc)
+					bad = "reference-run-failed";
+			}
+			if (rc)
+				failed = 1;
+			else {
+				if (hw_rf() > 0)
+					bad = "success-although-a-request-was-refused";
+				for (j = 0; j < 3 && bad == NULL; j++)
+					if ((ref[j] == NULL) != (got[j] == NULL) || (ref[j] != NULL && strcmp(ref[j], got[j]) != 0))
+						bad = "signature-differs-from-the-fault-free-run";
+			}
+			for (j = 0; j < 3; j++) {
+				free(ref[j]);
+				if (rc == 0)
+					free(got[j]);
+			}
+			free(body);
+			finish_line("");
 		} else if (hc_is("hs", 1)) {
 			char * s;
 
